@@ -103,6 +103,13 @@ def gen_build_history(rng, latlon, mag, sqlite_features=True, queries=("nodes", 
     if sqlite_features and rng.random() < 0.1 and cand_edges:
         a, b = rng.choice(cand_edges)
         ops.append({"op": "add_edge", "a": labels[a], "b": labels[b]})   # duplicate, ignored
+    if sqlite_features and rng.random() < 0.25:
+        # (not for C12, where both backends must hold the same content)
+        # the in-memory map may list a node as its own neighbour (its test maps do); placed somewhere among
+        # the road insertions so that it can precede other neighbours of the node
+        i = rng.randrange(n)
+        first_edge = next((k for k, o in enumerate(ops) if o["op"] in ("add_edge", "add_edges")), len(ops))
+        ops.insert(rng.randint(first_edge, len(ops)), {"op": "self_nbr", "a": labels[i]})
     if rng.random() < 0.3:
         # a loader that declares a node again after its roads were added (same label, same location)
         i = rng.randrange(n)
@@ -354,6 +361,11 @@ class StoreSession:
             if not op.get("no_commit"):
                 ref.commit()
             self.mutations += 1
+        elif k == "self_nbr":
+            a = op["a"]
+            if im is not None and a in self.im_ref.loc and a not in self.im_ref.nbrs[a]:
+                im.add_edge(a, a)
+                self.im_ref.nbrs[a].append(a)
         elif k == "add_edges":
             have = set(ref.view()["edges"])
             rows = [tuple(r) for r in op["edges"] if (r[0], r[1]) not in have]
